@@ -5,6 +5,7 @@
 import PotasscoVerif.Drv.BufferedStream
 import PotasscoVerif.Drv.RuleBuilder
 import PotasscoVerif.Drv.Aspif
+import PotasscoVerif.Drv.Smodels
 open PotasscoVerif.Drv
 
 def dispatch (line : String) : String :=
@@ -15,6 +16,8 @@ def dispatch (line : String) : String :=
   | "rs" :: args => runRS args
   | "aw" :: args => runAW args
   | "ar" :: args => runAR args
+  | "sw" :: args => runSW args
+  | "sr" :: args => runSR args
   | _ => "bad-component"
 
 partial def loop (h : IO.FS.Stream) (out : IO.FS.Stream) : IO Unit := do
